@@ -474,6 +474,16 @@ fn gen_general(r: &mut Sm64, nblobs: usize, per: usize, d: usize, kind: u64) -> 
 /// query batch: training points, component means, midpoints between means, and points 10..1e6 standard
 /// deviations away from a component (random and axis directions) or from all of them
 fn gen_queries(r: &mut Sm64, x: &Mat, f: &FitOut, nq_far: usize) -> (Mat, Vec<&'static str>) {
+    gen_queries_mc(r, x, &f.mu, &f.cov, nq_far)
+}
+
+struct MuCov<'a> {
+    mu: &'a Mat,
+    cov: &'a [Mat],
+}
+
+fn gen_queries_mc(r: &mut Sm64, x: &Mat, mu: &Mat, cov: &[Mat], nq_far: usize) -> (Mat, Vec<&'static str>) {
+    let f = MuCov { mu, cov };
     let d = x[0].len();
     let k = f.mu.len();
     let mut q: Mat = Vec::new();
@@ -669,6 +679,98 @@ fn probe_term(p: &Probe) -> String {
         "{{| p_max_iter := {}; p_n_runs := {}; p_kind := {}; p_w := {}; p_mu := {}; p_cov := {}; p_prec := {}; p_pchol := {}; p_xproba := {}; p_pred := {} |}}",
         cn(p.max_iter), cn(p.n_runs), cn(p.kind), w, mu, cov, prec, pchol, cmat64(&p.xproba), cvecn(&p.pred)
     )
+}
+
+// ------------------------------------------------------------------------------------------------
+// binary32 stream: GaussianMixtureModel::<f32>
+
+struct Fit32 {
+    model: GaussianMixtureModel<f32>,
+    w: Vec<f64>,
+    mu: Mat,
+    cov: Vec<Mat>,
+    prec: Vec<Mat>,
+}
+fn rows32(a: &ndarray::ArrayView2<f32>) -> Mat {
+    a.rows().into_iter().map(|r| r.iter().map(|&v| v as f64).collect()).collect()
+}
+fn arr32(rows: &[Vec<f64>]) -> ndarray::Array2<f32> {
+    let d = if rows.is_empty() { 0 } else { rows[0].len() };
+    ndarray::Array2::from_shape_vec((rows.len(), d), rows.iter().flatten().map(|&v| v as f32).collect()).unwrap()
+}
+/// every value rounded to binary32 (and widened again: each f32 is an f64)
+fn round32(x: &Mat) -> Mat {
+    x.iter().map(|r| r.iter().map(|&v| v as f32 as f64).collect()).collect()
+}
+/// Ok(Ok(fit)) | Ok(Err((GmmError variant, message))) | Err(panic message)
+fn do_fit32(x: &Mat, c: &Cfg) -> Result<Result<Fit32, (u64, String)>, String> {
+    let (x2, c2) = (arr32(x), c.clone());
+    guarded(move || {
+        let rng = Xoshiro256Plus::seed_from_u64(c2.seed);
+        let ds = DatasetBase::from(x2);
+        let init = if c2.random_init { GmmInitMethod::Random } else { GmmInitMethod::KMeans };
+        let r = GaussianMixtureModel::<f32>::params_with_rng(c2.k, rng)
+            .tolerance(c2.tol as f32)
+            .reg_covariance(c2.reg as f32)
+            .n_runs(c2.n_runs)
+            .max_n_iterations(c2.max_iter)
+            .init_method(init)
+            .fit(&ds);
+        match r {
+            Ok(m) => Ok(Fit32 {
+                w: m.weights().iter().map(|&v| v as f64).collect(),
+                mu: rows32(&m.means().view()),
+                cov: m.covariances().outer_iter().map(|a| rows32(&a)).collect(),
+                prec: m.precisions().outer_iter().map(|a| rows32(&a)).collect(),
+                model: m,
+            }),
+            Err(e) => Err((err_kind(&e), format!("{}", e).chars().take(160).collect())),
+        }
+    })
+}
+fn do_predict32(m: &GaussianMixtureModel<f32>, q: &Mat) -> Result<(Mat, Vec<usize>), String> {
+    let (m2, q2) = (m.clone(), arr32(q));
+    let proba = guarded(move || rows32(&m2.predict_proba(&q2).view())).map_err(|e| format!("predict_proba panicked: {}", e))?;
+    let (m3, q3) = (m.clone(), arr32(q));
+    let pred = guarded(move || m3.predict(&q3).to_vec()).map_err(|e| format!("predict panicked: {}", e))?;
+    Ok((proba, pred))
+}
+/// rank-deficient families (binary32 values): 0 third feature = sum of the two others (fl32), 1 duplicated
+/// feature, 2 all points on a line through a lattice point, 3 few distinct points (at most d) repeated
+fn gen_singular32(r: &mut Sm64, fam: u64, n: usize, d: usize) -> Mat {
+    let mut rows: Mat = Vec::new();
+    match fam {
+        0 => {
+            for _ in 0..n {
+                let a = (2.0 * r.unit() - 1.0) as f32;
+                let b = (2.0 * r.unit() - 1.0) as f32;
+                let mut row = vec![a as f64, b as f64, (a + b) as f64];
+                for _ in 3..d { row.push(r.gauss() as f32 as f64); }
+                rows.push(row);
+            }
+        }
+        1 => {
+            for _ in 0..n {
+                let mut row: Vec<f64> = (0..d).map(|_| (3.0 * r.gauss()) as f32 as f64).collect();
+                if d >= 2 { row[d - 1] = row[0]; } else { row[0] = 1.25; }
+                rows.push(row);
+            }
+        }
+        2 => {
+            let v: Vec<f64> = (0..d).map(|_| r.range(-4, 4) as f64).collect();
+            let c: Vec<f64> = (0..d).map(|_| r.range(-8, 8) as f64).collect();
+            for _ in 0..n {
+                let t = (r.gauss() as f32) as f64;
+                rows.push((0..d).map(|j| (c[j] + t * v[j]) as f32 as f64).collect());
+            }
+        }
+        _ => {
+            let m = 1 + r.below(d as u64) as usize;
+            let pts: Mat = (0..m).map(|_| (0..d).map(|_| (r.range(-64, 64) as f64) / 8.0).collect()).collect();
+            for i in 0..n { rows.push(pts[i % m].clone()); }
+        }
+    }
+    rows
 }
 
 fn scaled(x: &Mat, e: i32) -> Mat {
@@ -1127,6 +1229,102 @@ fn main() {
         let key = if decidable { Some(fnv_f64s(&x.concat(), (k as u64) << 8 | 4 | fk << 16)) } else { None };
         out.case(this, &term, &t, &desc, key);
     }
+
+    // ---------------------------------------------------------------- binary32 stream
+    // GaussianMixtureModel::<f32> on the general families (not the far-offset one: binary32 cannot resolve unit
+    // spread at 1e5..2e9), the exact degenerate families of the fit stream and four rank-deficient families with
+    // reg_covar 0; scales 2^0, 2^-20, 2^20; standard layout.  The outputs, widened exactly to binary64, are judged
+    // by the validity oracle with binary32 tolerances (C10/Corr.v gmm_bits32); Err on the singular inputs is the
+    // expected outcome, a returned model has to pass the oracle
+    let n_f32 = if thorough { 600 } else { 72 };
+    for _ in 0..n_f32 {
+        let mut r = rng.fork();
+        let this = id;
+        id += 1;
+        let src = r.below(3); // 0 general, 1 exact degenerate (fit-stream families), 2 rank-deficient with reg 0
+        let sc = [0, -20, 20][(this % 3) as usize];
+        let (x0, k, d, kind, reg0, singular): (Mat, usize, usize, u64, f64, bool) = match src {
+            0 => {
+                let d = 1 + r.below(4) as usize;
+                let kind = *r.pick(&[0u64, 1, 2, 3, 4, 5, 6]);
+                let nblobs = 1 + r.below(3) as usize;
+                let k = if r.chance(0.75) { nblobs } else { 1 + r.below(3) as usize };
+                let per = (10 + r.below(10) as usize).max(d + 4);
+                let x = gen_general(&mut r, nblobs, per, d, kind);
+                let reg = match kind {
+                    3 => *r.pick(&[1e-2, 1e-3, 0.0]),
+                    6 => *r.pick(&[1e-2, 0.25]),
+                    5 => *r.pick(&[1e-6, 1e-8]),
+                    _ => *r.pick(&[0.0, 1e-6, 1e-2, 1e-4]),
+                };
+                (x, k, d, kind, reg, kind == 3)
+            }
+            1 => {
+                let fk = r.below(6);
+                let d = 1 + r.below(3) as usize;
+                let k0 = match fk { 4 | 5 => 1, _ => 1 + r.below(if d == 1 { 2 } else { 3 }) as usize };
+                let (x, lab) = gen_fit_data(&mut r, fk, k0, d);
+                let blobs = 1 + *lab.iter().max().unwrap();
+                let k = if fk == 3 { blobs + 1 } else { blobs };
+                let reg = *r.pick(&[0.0009765625, 0.25, 1e-4, 4.0, 0.0]);
+                (x, k, d, 10 + fk, reg, fk == 1 || fk == 3 || fk == 4)
+            }
+            _ => {
+                let fam = r.below(4);
+                let d = if fam == 0 { 3 + r.below(2) as usize } else { 2 + r.below(3) as usize };
+                let n = 20 + r.below(45) as usize;
+                let k = if r.chance(0.7) { 1 } else { 2 };
+                (gen_singular32(&mut r, fam, n, d), k, d, 20 + fam, 0.0, true)
+            }
+        };
+        let x = round32(&scaled(&round32(&x0), sc));
+        let reg = (reg0 as f32 as f64 * pow2(2 * sc)) as f32 as f64;
+        let cfg = Cfg { k, reg, tol: *r.pick(&[1e-3, 1e-4]), max_iter: *r.pick(&[100, 200]), n_runs: *r.pick(&[1, 1, 2]), random_init: r.chance(0.25), seed: r.below(1 << 20) };
+        let mut tags: Vec<String> = vec!["stream_f32".into(), "f32".into(), format!("kind32_{}", kind), format!("k_{}", k), format!("d_{}", d), format!("scale_{}", sc), format!("init_{}", if cfg.random_init { "random" } else { "kmeans" })];
+        if reg == 0.0 { tags.push("reg_zero".into()); }
+        if singular { tags.push("rank_deficient".into()); }
+        let t: Vec<&str> = tags.iter().map(|s| s.as_str()).collect();
+        let desc = desc_json("f32", kind, x.len(), d, &cfg, &format!("\"float\": \"f32\", \"scale_log2\": {}, ", sc), &x[0]);
+        out.bump("stream_f32");
+        out.bump(&format!("f32_source_{}", ["general", "exact_degenerate", "rank_deficient_reg0"][src as usize]));
+        out.bump(&format!("f32_kind_{}", kind));
+        out.bump(&format!("f32_scale_2^{}", sc));
+        match do_fit32(&x, &cfg) {
+            Err(p) => {
+                out.bump("f32_fit_panic");
+                out.rust_fail(this, 512, &t, &format!("f32 fit panicked instead of returning an error: {}", p), &desc);
+                out.rust_eval(&desc, None);
+            }
+            Ok(Err((kd, e))) => {
+                out.bump(&format!("f32_fit_err_{}", kd));
+                if singular && reg == 0.0 { out.bump("f32_singular_reg0_err"); }
+                if k == 1 && reg0 >= 1e-4 {
+                    out.rust_fail(this, 256, &t, &format!("f32 fit failed on a one-component problem with reg_covar >= 1e-4: {}", e), &desc);
+                }
+                out.rust_eval(&desc, Some(fnv_f64s(&x.concat(), (k as u64) << 8 | 5)));
+            }
+            Ok(Ok(f)) => {
+                out.bump("f32_fit_ok");
+                if singular && reg == 0.0 { out.bump("f32_singular_reg0_returned_model"); }
+                let (q, _) = gen_queries_mc(&mut r, &x, &f.mu, &f.cov, if thorough { 6 } else { 4 });
+                let q = round32(&q);
+                match do_predict32(&f.model, &q) {
+                    Ok((proba, pred)) => {
+                        let term = format!(
+                            "F32 {{| c_id := {}; c_k := {}; c_d := {}; c_reg := {}; c_X := {}; c_exact := false; c_weights := {}; c_means := {}; c_covs := {}; c_precs := {}; c_pchol := {}; c_xproba := {}; c_query := {}; c_proba := {}; c_pred := {} |}}",
+                            cn(this), cn(k as u64), cn(d as u64), sf64(reg), cmat64(&x), cvec64(&f.w), cmat64(&f.mu), cmats(&f.cov), cmats(&f.prec), cmats(&[]),
+                            cmat64(&vec![]), cmat64(&q), cmat64(&proba), cvecn(&pred)
+                        );
+                        out.case(this, &term, &t, &desc, Some(fnv_f64s(&x.concat(), (k as u64) << 8 | 6)));
+                    }
+                    Err(e) => {
+                        out.rust_fail(this, 64, &t, &e, &desc);
+                        out.rust_eval(&desc, None);
+                    }
+                }
+            }
+        }
+    }
     flush_diffs(&mut out);
-    out.finish("four streams: exact (dyadic separated blobs, hard responsibilities, bit-for-bit), general (8 data families x d 1..6 x k 1..4 x both initialisers x reg_covar), error (non-convergence, too many components, singular covariance, overflow, n < k), fit (whole-fit model vs implementation on 6 degenerate exact families x 4 (max_n_iterations, n_runs) probes each: Ok / Err kind, parameters, precisions_chol, responsibilities); a case is non-trivial when k > 1 (exact stream: k > 1 or d > 1 and compared bit for bit; error stream: an Err was returned; fit stream: the model run is decidable); distinct = distinct (data, k, stream) hashes");
+    out.finish("five streams (the fifth: GaussianMixtureModel::<f32> fits judged by the binary32 validity oracle): exact (dyadic separated blobs, hard responsibilities, bit-for-bit), general (8 data families x d 1..6 x k 1..4 x both initialisers x reg_covar), error (non-convergence, too many components, singular covariance, overflow, n < k), fit (whole-fit model vs implementation on 6 degenerate exact families x 4 (max_n_iterations, n_runs) probes each: Ok / Err kind, parameters, precisions_chol, responsibilities); a case is non-trivial when k > 1 (exact stream: k > 1 or d > 1 and compared bit for bit; error stream: an Err was returned; fit stream: the model run is decidable); distinct = distinct (data, k, stream) hashes");
 }
